@@ -23,7 +23,7 @@ ASSUME = [
 
 GENERIC = dict(pts=[dict(s=1, t=1, o=[2], x=[0]), dict(s=2, t=2, o=[1], x=[1]), dict(s=3, t=2, o=[0], x=[1])],
                dir="min", weights=[1], bound=[], mode="incremental", priority="pareto", max_iter=[],
-               unknown_ok=False, outside_fragment=False, nvars=1)
+               unknown_ok=False, outside_fragment=False, time_stops=True, nvars=1)
 
 
 def spec_sequences(n, seed, maxcalls=6):
